@@ -112,7 +112,7 @@ def run_cases(cases, tag, shard=250, workers=8):
         if not r.ok:
             raise RuntimeError("cases shard %s failed: %s" % (f, r.text[-1500:]))
         body = r.out.split(": list (nat * nat)")[0]
-        for a, b_ in re.findall(r"\((\d+),\s*(\d+)\)", body):
+        for a, b_ in re.findall(r"\(\s*(\d+)\s*,\s*(\d+)\s*\)", body):
             verdict[int(a)] = int(b_)
     return verdict, real["results"]
 
@@ -165,3 +165,51 @@ def base_cases(mmv, rng, n_random=1, malformed=True):
                 j["params"] = mmv.rand(r["params"], rng, 1, 2)
             cases.append({"target": names[0], "input": j, "kind": "valid-msg", "mmty": "(notif_ty %s)" % V.q(m)})
     return cases
+
+
+def run_traces(cases, tag="tr"):
+    """dispatch traces of the MODEL on the given cases: list of list of (union type string, path string | 'no-handler')"""
+    if not cases:
+        return []
+    pkg = json.load(open(os.path.join(V.GEN, "pkg.json")))
+    rows = ["(%s, %s)" % (target_pty(c["target"], pkg), cj(c["input"])) for c in cases]
+    hdr = ("From LSP Require Import Base Sem Trace.\nFrom Gen Require Import PkgData.\nOpen Scope string_scope.\n"
+           "Definition alias_ty (n : string) : pty := match assoc n alias_objects with Some t => t | None => PyFwd n end.\n")
+    outs = V.coq_eval("Trace_" + tag, hdr + "Definition cases : list (pty * json) := [\n" + ";\n".join(rows) + "].\n",
+                      ["map (fun c => map (show union_table) (trace Sg 60 (fst c) (snd c))) cases"])
+    txt = outs[0].rsplit(":", 1)[0]
+    # parse a list of lists of (nat, option (list bool))
+    res, cur, depth = [], None, 0
+    tok = re.findall(r"\[|\]|\(\s*\d+\s*,|Some|None|true|false", txt)
+    i = 0
+    # structure: [ [ (n, Some [b; b]) ; (n, None) ] ; [ ... ] ]
+    while i < len(tok):
+        t = tok[i]
+        if t == "[":
+            depth += 1
+            if depth == 2:
+                cur = []
+        elif t == "]":
+            if depth == 2:
+                res.append(cur)
+                cur = None
+            depth -= 1
+        elif t.startswith("(") and depth == 2:
+            idx = int(re.search(r"\d+", t).group(0))
+            i += 1
+            if tok[i] == "None":
+                path = "no-handler"
+            else:
+                i += 1  # '['
+                depth += 1
+                bits = []
+                i += 1
+                while tok[i] != "]":
+                    bits.append("T" if tok[i] == "true" else "F")
+                    i += 1
+                depth -= 1
+                path = "".join(bits) or "-"
+            u = pkg["unions"][idx] if idx < len(pkg["unions"]) else "<union not in table>"
+            cur.append((u, path))
+        i += 1
+    return res
